@@ -28,6 +28,8 @@ int& retref(int id, int snap, int& target, const void* a1) { log_clause('R', id,
 const int& retcref(int id, int snap, const int& target, const void* a1) { log_clause('R', id, 0, snap, a1, &target); point(); return target; }
 std::string rets(int id, int snap, const void* a1) { log_clause('R', id, 0, snap, a1, nullptr); point(); return std::to_string(id * 8 + (snap & 7)); }
 std::string& retsr(int id, int snap, std::string& target, const void* a1) { log_clause('R', id, 0, snap, a1, &target); point(); return target; }
+std::pair<int, int> retp(int id, int snap, const void* a1) { log_clause('R', id, 0, snap, a1, nullptr); point(); return {id * 8 + (snap & 7), snap}; }
+std::pair<int, int>& retpr(int id, int snap, std::pair<int, int>& target, const void* a1) { log_clause('R', id, 0, snap, a1, &target); point(); return target; }
 std::runtime_error thr_std(int id, int snap) { log_clause('R', id, 0, snap, nullptr, nullptr); point(); return std::runtime_error("inst " + std::to_string(id)); }
 int thr_int(int id, int snap) { log_clause('R', id, 0, snap, nullptr, nullptr); point(); return id; }
 
@@ -68,7 +70,7 @@ void ExecImpl::install_reporter() {
         if (fatal) throw fatal_report{};
       },
       [gen](char const* msg) {
-        if (g_cur) g_cur->cur_obs().oks.push_back(RawOk{gen, msg ? msg : ""});
+        if (g_cur) { g_cur->cur_obs().oks.push_back(RawOk{gen, msg ? msg : ""}); g_cur->on_ok(); }
       });
 }
 
@@ -81,6 +83,21 @@ void ExecImpl::on_report(bool fatal) {
   in_reporter_op = true;
   step(*op, true);
   in_reporter_op = false;
+}
+
+// the OK reporter is user code too: operations attached to a call at position -1 are performed by it, i.e. after the call
+// has been matched and counted and before any of its actions runs (the lock is held recursively)
+void ExecImpl::on_ok() {
+  if (ctx_stack.empty() || stop) return;
+  CallCtx& c = *ctx_stack.back();
+  if (!c.op || c.ok_nested_done) return;
+  c.ok_nested_done = true;
+  for (auto& n : c.op->nested) {
+    if (n.first == -1 && !stop) {
+      ++st.f_reentry; ++st.nested_ops; ++st.p_ok_reporter_op;
+      step(n.second, true);
+    }
+  }
 }
 
 // ---------------- construction ----------------
@@ -229,7 +246,7 @@ void ExecImpl::step(const Op& op, bool nested) {
   X(p_saturated_nomatch) X(p_seq_mismatch) X(p_passed_entry) X(p_release_unfulfilled) X(p_release_named) \
   X(p_moved_mock_call) X(p_seq_destroy_nonempty) X(p_monitor_ok) X(p_monitor_unexpected) X(p_monitor_still_alive) \
   X(p_monitor_seq_violation) X(p_with_rejects) X(p_lr_differs) X(p_trace_records) X(p_ok_reports) X(p_rt_inverted) \
-  X(p_multi_monitor) X(p_assign_watched) X(p_seq_taken_over) X(p_watched_mock_death) X(flag_observations)
+  X(p_multi_monitor) X(p_assign_watched) X(p_seq_taken_over) X(p_watched_mock_death) X(p_ok_reporter_op) X(flag_observations)
 
 void Stats::add(const Stats& o) {
   for (int i = 0; i < OP_KIND_COUNT; ++i) ops[i] += o.ops[i];
